@@ -134,6 +134,9 @@ def main(run: core.Run, only=None):
         for flow in ("system", "borehole"):
             chunks.append({"fam": "A5", "method": method, "geo": None if method == "constrained" else {"length": 40.0, "width": 25.0, "b_min": 3.0, "b_max_x": 10.0, "b_max_y": 12.0},
                            "full": False, "wv": 0, "flow": flow})
+    for method in ("nearsquare", "rectangle"):
+        for n in range(1, 5):
+            chunks.append({"fam": "A7", "method": method, "n": n})
     run.drive(chunks, family="searches")
     return run.finish(
         rule="arithmetic: every N in 1..400 x 4 flows x 4 fluids x 4 search classes; objects: real GHE pairs over N x flow x fluid x pipe; "
